@@ -180,6 +180,8 @@ def compile_forms(
 
     # If requested, replace bi-linear forms by their diagonal part
     if p["part"] == "diagonal":
+        # Work on a copy: the caller's list is not changed
+        forms = list(forms)
         for i, form in enumerate(forms):
             arguments = form.arguments()
             numbers = tuple(sorted(set(a.number() for a in arguments)))
